@@ -144,36 +144,7 @@ def run(fx, tier):
         raise AnalysisBroken('only %d success-capable completions found' % n_success)
 
     # ---------------------------------------------------------------- R-DOM reply matching
-    for finder, fields in (('find_handler', ('code', 'packet_id')), ('find_fast_reply', ('code', 'packet_id'))):
-        fs = [f for f in fx.functions(cls='replies', name=finder)]
-        if not fs:
-            raise AnalysisBroken('replies::%s not found' % finder)
-        for f in fs:
-            v.saw(f)
-            lams = [g for g in fx.fns if g.tu == f.tu and g.lam and g.parent == f.id]
-            ok = False
-            why = 'predicate lambda not found'
-            for g in lams:
-                rets = [x for _, _, _, x in g.elements() if x.get('k') == 'ret']
-                if len(rets) != 1:
-                    continue
-                r = origin(g, rets[0].get('e'))
-                conj = _conjuncts(g, r)
-                got = set()
-                for c in conj:
-                    cmp_ = comparison(c, 'T')
-                    if cmp_ is None or cmp_[0] != '==':
-                        continue
-                    sides = [core(cmp_[1]), core(cmp_[2])]
-                    for nm in fields:
-                        a = [s for s in sides if _is_field_of_elem(s, nm)]
-                        b = [s for s in sides if isinstance(s, dict) and s.get('k') == 'ref' and s.get('n') == nm]
-                        if a and b:
-                            got.add(nm)
-                ok = got == set(fields) and len(conj) == 2
-                why = 'predicate is the conjunction of equalities on %s (found %s, %d conjuncts)' % (fields, sorted(got), len(conj))
-            v.check(ok, 'R-DOM', 'replies::%s [%s]' % (finder, f.tu), why,
-                    key='C01:R-DOM:replies::%s' % finder, where=f.file)
+    reply_matching_rule(fx, v, 'C01')
     # dispatch / async_wait_reply use the finders with their own (code, packet_id)
     for f in fx.functions(cls='replies', name='dispatch'):
         v.saw(f)
@@ -343,3 +314,38 @@ def public_call_arguments_rule(fx, v, prop, names):
                     key='%s:R-FLOW:mqtt_client::%s:arguments-by-value' % (prop, f.n), where='%s:%s' % (f.path_file(), l))
     if n == 0:
         raise AnalysisBroken('mqtt_client::%s: async_initiate call not found' % (names,))
+
+
+def reply_matching_rule(fx, v, prop='C01'):
+    """an acknowledgement reaches the waiter of ITS exchange: matching is on control code AND packet identifier (client and
+    broker identifier spaces overlap).  Shared by every property whose completion goes through the replies registry."""
+    for finder, fields in (('find_handler', ('code', 'packet_id')), ('find_fast_reply', ('code', 'packet_id'))):
+        fs = [f for f in fx.functions(cls='replies', name=finder)]
+        if not fs:
+            raise AnalysisBroken('replies::%s not found' % finder)
+        for f in fs:
+            v.saw(f)
+            lams = [g for g in fx.fns if g.tu == f.tu and g.lam and g.parent == f.id]
+            ok = False
+            why = 'predicate lambda not found'
+            for g in lams:
+                rets = [x for _, _, _, x in g.elements() if x.get('k') == 'ret']
+                if len(rets) != 1:
+                    continue
+                r = origin(g, rets[0].get('e'))
+                conj = _conjuncts(g, r)
+                got = set()
+                for c in conj:
+                    cmp_ = comparison(c, 'T')
+                    if cmp_ is None or cmp_[0] != '==':
+                        continue
+                    sides = [core(cmp_[1]), core(cmp_[2])]
+                    for nm in fields:
+                        a = [s for s in sides if _is_field_of_elem(s, nm)]
+                        b = [s for s in sides if isinstance(s, dict) and s.get('k') == 'ref' and s.get('n') == nm]
+                        if a and b:
+                            got.add(nm)
+                ok = got == set(fields) and len(conj) == 2
+                why = 'predicate is the conjunction of equalities on %s (found %s, %d conjuncts)' % (fields, sorted(got), len(conj))
+            v.check(ok, 'R-DOM', 'replies::%s [%s]' % (finder, f.tu), why,
+                    key='%s:R-DOM:replies::%s' % (prop, finder), where=f.file)
